@@ -38,7 +38,7 @@ RULE = ("law instances = every `<-->` line found in core.py docstrings and docs/
         "distinct by (law instance, case)")
 ASSUMPTIONS = ["exception *types* of the two sides may differ; only accept/reject and the value/bytes are compared",
                "the lower-case `byte` in docs/misc.rst is read as Byte (typo, not a law)",
-               "IntFlag/IntEnum classes with aliases or multi-bit members are not used to instantiate E (Python's own iteration drops them)"]
+               "for IntEnum/IntFlag classes with aliases or named multi-bit combinations the keyword side lists what iterating the class yields (its canonical members)"]
 REQUIRED_ANCHORS = ["core:BytesInteger._parse", "core:BitsInteger._parse", "core:Bitwise", "core:Bytewise", "core:ByteSwapped", "core:Optional", "core:If",
                     "core:Padding", "core:PrefixedArray", "core:BitStruct", "core:Enum.__init__", "core:FlagsEnum.__init__", "core:Hex._decode",
                     "core:HexDump._decode", "core:Construct.__getitem__", "core:Construct.__add__", "core:Construct.__rshift__", "core:Construct.__rtruediv__",
@@ -97,9 +97,11 @@ def instantiations(sides):
         return out
     if "E" in names and ("Enum" in names or "FlagsEnum" in names):
         for base in (enum.IntEnum, enum.IntFlag):
-            for members in ([("one", 1), ("two", 2)], [("a", 1), ("b", 2), ("c", 4), ("d", 128)], [("only", 8)]):
+            for members in ([("one", 1), ("two", 2)], [("a", 1), ("b", 2), ("c", 4), ("d", 128)], [("only", 8)],
+                            # aliases and named multi-bit combinations: the class's members are what iterating it yields
+                            [("one", 1), ("uno", 1), ("two", 2)], [("r", 1), ("w", 2), ("rw", 3), ("x", 4), ("all", 7)], [("a", 2), ("b", 2), ("c", 2)]):
                 E = base("E", members)
-                kwsrc = ", ".join("%s=%d" % kv for kv in members)
+                kwsrc = ", ".join("%s=%d" % (m.name, m.value) for m in E)
                 srcs = [re.sub(r"one=1, two=2", kwsrc, s) for s in sides]
                 add("%s%r" % (base.__name__, [m for m, _ in members]), {"E": E}, srcs)
         return out
@@ -298,6 +300,15 @@ def fixed_table():
     t.append(("operator a >> b", "", ["Byte >> Int16ub", "Sequence(Byte, Int16ub)"], {}))
     t.append(("operator a >> b", "three", ["Byte >> Int16ub >> VarInt", "Sequence(Byte, Int16ub, VarInt)"], {}))
     t.append(("operator a >> b", "seq-left-reused", ["SEQ >> Flag", "Sequence(Byte, Byte, Flag)"], {"_seq_reuse": True}))
+    # only bare Sequences / Structs are merged: anything else that merely has members is nested as one element
+    for x in ("Struct('x' / Byte, 'y' / Byte)", "Optional(Int16ub)", "Select(Const(b'AB'), Int16ub)", "Union(0, 'a' / Int16ub, 'b' / Bytes(2))", "FocusedSeq('v', Const(b'\\x01'), 'v' / Byte)",
+              "('pair' / Sequence(Byte, Byte))", "Array(2, Byte)", "BitStruct('a' / Nibble, 'b' / Nibble)", "Sequence(Byte, Byte) * 'documented'"):
+        t.append(("operator a >> b", "right=" + x, ["Byte >> %s" % x, "Sequence(Byte, %s)" % x], {}))
+        t.append(("operator a >> b", "left=" + x, ["%s >> Byte" % x, "Sequence(%s, Byte)" % x], {}))
+    for x in ("'s' / Struct('x' / Byte, 'y' / Byte)", "'q' / Sequence(Byte, Byte)", "'o' / Optional(Int16ub)", "'u' / Union(0, 'a' / Int16ub, 'b' / Bytes(2))",
+              "'f' / FocusedSeq('v', Const(b'\\x01'), 'v' / Byte)"):
+        t.append(("operator a + b", "right=" + x, ["'h' / Byte + %s" % x, "Struct('h' / Byte, %s)" % x], {}))
+        t.append(("operator a + b", "left=" + x, ["%s + 't' / Byte" % x, "Struct(%s, 't' / Byte)" % x], {}))
     t.append(("AlignedStruct docstring", "", ["AlignedStruct(4, 'a' / Int8ub, 'b' / Int16ub)", "Struct('a' / Aligned(4, Int8ub), 'b' / Aligned(4, Int16ub))"], {}))
     return t
 
